@@ -9,8 +9,9 @@
 (*                steps (copy, barrier+seal, release read lock, PRAGMA,      *)
 (*                un-barrier, bump, finish/boundary snapshot)                *)
 (*   LsClose / LsOpenSameObject / LsOpenNewProcess / LsCrash   db.go:770-878 *)
-(* FixF1/FixF2/FixG1 = FALSE model the code as it is; TRUE model candidate   *)
-(* repairs (used to vet a repair before it becomes a `fix:` commit).         *)
+(* FixF1/FixF2/FixG1 = TRUE model the code as it is now (after the `fix:`    *)
+(* commits); FALSE model the pinned code, in which TLC finds the data-loss   *)
+(* histories F1, F2, G1 within seconds (kept as negative controls).          *)
 (* AtomicChk = TRUE disables application steps inside a litestream           *)
 (* checkpoint (used to generate schedules that need no gating hooks).        *)
 (* hz is a history variable naming the shapes of known findings; the as-is   *)
@@ -206,8 +207,9 @@ Verify ==
        ELSE
          LET fr == wal[X]
              lpm == fr.gen = last.gen /\ last.pages[fr.pg] = fr.ver
-             cont == FixF2 /\ ((X + 1 <= Len(wal) /\ wal[X+1].gen = last.gen /\ wal[X+1].st >= wal[X].st)
-                               \/ hdrGen # last.gen + 1)
+             \* repaired code (db.go verifyWithExecutor): a frame carrying the old salts right after the cursor, or a
+             \* header salt that is not the old one plus one, forces a snapshot from the new header
+             cont == FixF2 /\ ((X + 1 <= Len(wal) /\ wal[X+1].gen = last.gen) \/ hdrGen # last.gen + 1)
          IN IF cont /\ ~saltMatch THEN [snap |-> TRUE, off |-> 0, gen |-> hdrGen, clr |-> FALSE, prevC |-> pc0]
             ELSE IF ~lpm THEN [snap |-> TRUE, off |-> X, gen |-> last.gen, clr |-> FALSE, prevC |-> pc0]
             ELSE IF saltMatch THEN [snap |-> FALSE, off |-> X, gen |-> last.gen, clr |-> FALSE, prevC |-> pc0]
